@@ -641,6 +641,10 @@ pub fn cost_families(out: &mut crate::Out, thorough: bool, seed: u64) {
     for k in if thorough { vec![1000usize, 5000, 20000, 50000, 200000] } else { vec![1000usize, 20000, 60000] } {
         out.put(deep_record(k));
     }
+    // vectors nested a*b deep, built by VEmpty; Loop(a,3){Loop(b,2){VEmpty; VPush}} (child process: recursion in clone / drop may exhaust the stack)
+    for (a, b) in if thorough { vec![(1u16, 100u16), (1, 1000), (1, 5000), (1, 20000), (1, 65535), (4, 65535)] } else { vec![(1u16, 100u16), (1, 1000), (1, 20000), (2, 65535)] } {
+        out.put(deepval_record(a, b));
+    }
     // honest programs for calibration of the cost model
     for _ in 0..200 {
         let ops = gen_typed(&mut r);
@@ -801,4 +805,37 @@ pub fn deep_record(k: usize) -> J {
         Err(_) => ("spawn-error", json!([])),
     };
     json!({"ev": "deep", "fam": "cost-deep-nesting", "k": k, "bytes": 5 * k + 3, "status": status, "weight": weight, "ms": ms})
+}
+
+
+/// Deeply nested VALUES: VEmpty; Loop(a, 3){ Loop(b, 2){ VEmpty; VPush } } builds a vector nested a*b deep; run (and dropped)
+/// on a 2 MiB thread in a child process.
+pub fn deepval_child(a: u16, b: u16) {
+    use OpCode::*;
+    let ops = vec![VEmpty, Loop(a, 3), Loop(b, 2), VEmpty, VPush, PushIC(U256::ONE)];
+    let h = std::thread::Builder::new().stack_size(2 * 1024 * 1024).spawn(move || {
+        let c = Covenant::from_ops(&ops);
+        let w = c.weight();
+        let r = c.debug_execute(&[]);
+        (w, r.is_some())
+    }).unwrap();
+    match h.join() {
+        Ok((w, ok)) => println!("{}", json!({"weight": js::limbs_u128(w), "ok": ok})),
+        Err(_) => println!("{}", json!({"panic": true})),
+    }
+}
+
+
+pub fn deepval_record(a: u16, b: u16) -> J {
+    let exe = std::env::current_exe().unwrap();
+    let out = std::process::Command::new(exe).args(["deepvalchild", "--a", &a.to_string(), "--b", &b.to_string()]).output();
+    let status = match out {
+        Ok(o) if o.status.success() => {
+            let v: J = serde_json::from_slice(o.stdout.split(|c| *c == b'\n').next().unwrap_or(b"{}")).unwrap_or(json!({}));
+            if v.get("ok").is_some() { "ok" } else { "panic" }
+        }
+        Ok(_) => "abort",
+        Err(_) => "spawn-error",
+    };
+    json!({"ev": "deepval", "fam": "cost-deep-values", "a": a, "b": b, "depth": a as u64 * b as u64, "status": status})
 }
